@@ -120,6 +120,8 @@ type job struct {
 	FileOut     string         `json:"file_out"`
 	DumpRuns    string         `json:"dump_runs"`
 	Known       []knownFinding `json:"known"`
+	Current     string         `json:"current"`
+	WatchdogS   int            `json:"watchdog_s"`
 }
 
 type workerResult struct {
@@ -325,8 +327,17 @@ func doReplay(prop, file string, verbose bool) int {
 	abs, _ := filepath.Abs(file)
 	td := tmpDir(prop + "-replay")
 	defer os.RemoveAll(td)
-	j := job{Mode: "replay", Property: prop, File: abs, Out: filepath.Join(td, "replay.jsonl")}
+	j := job{Mode: "replay", Property: prop, File: abs, Out: filepath.Join(td, "replay.jsonl"), WatchdogS: 20}
 	res := runWorker(j, 1, 10*time.Minute)
+	if res.exit == 3 {
+		if b, err := os.ReadFile(abs); err == nil && strings.Contains(string(b), "/hang\"") {
+			if verbose {
+				fmt.Printf("replay %s: the run hangs again (watchdog after 20 s without progress)\n", file)
+				fmt.Printf("VIOLATION property=%s replay=%s\n", prop, file)
+			}
+			return 1
+		}
+	}
 	if res.exit != 0 || len(res.lines) == 0 {
 		fmt.Fprintf(os.Stderr, "check: replay worker failed (exit %d)\n%s\n", res.exit, res.stderr)
 		return 2
@@ -414,7 +425,7 @@ func explore(prop, tier string) int {
 			defer wg.Done()
 			j := job{Mode: "explore", Property: prop, Tier: tier, VerifSeed: seed, Worker: w, Workers: workers, BudgetS: budget,
 				MaxRuns: maxRuns, MaxFailures: 2, DetEvery: 25, Known: openKnown, Out: filepath.Join(td, fmt.Sprintf("w%d.jsonl", w)),
-				Hashes: filepath.Join(td, fmt.Sprintf("w%d.hashes", w))}
+				Hashes: filepath.Join(td, fmt.Sprintf("w%d.hashes", w)), Current: filepath.Join(td, fmt.Sprintf("w%d.current", w))}
 			results[w] = runWorker(j, 1, time.Duration(budget*float64(time.Second))+10*time.Minute)
 		}(w)
 	}
@@ -423,6 +434,7 @@ func explore(prop, tier string) int {
 	// aggregate
 	agg := summary{Probes: map[string]int{}, Faults: map[string]int{}, Modes: map[string]int{}, Labels: map[string]int{}, KnownSeen: map[string]int{}}
 	var failures []json.RawMessage
+	var hangs [][]byte
 	infra := []string{}
 	for w, r := range results {
 		gotSummary := false
@@ -463,6 +475,13 @@ func explore(prop, tier string) int {
 				failures = append(failures, m["failure"])
 			case "infra":
 				infra = append(infra, fmt.Sprintf("worker %d: %s", w, r.raw[i]))
+			}
+		}
+		if r.exit == 3 && hangIsViolation[prop] {
+			// the watchdog fired: a call of the system under test never returned
+			if b, err := os.ReadFile(filepath.Join(td, fmt.Sprintf("w%d.current", w))); err == nil {
+				hangs = append(hangs, b)
+				continue
 			}
 		}
 		if r.exit != 0 || !gotSummary {
@@ -573,6 +592,25 @@ func explore(prop, tier string) int {
 		violations++
 		exit = 1
 	}
+	for hi, hb := range hangs {
+		if hi > 0 {
+			break // one hang replay is enough
+		}
+		var f struct {
+			RunIndex uint64 `json:"run_index"`
+		}
+		json.Unmarshal(hb, &f)
+		outFile := filepath.Join(replayDir, fmt.Sprintf("%s-%d-%d-hang.json", prop, seed, f.RunIndex))
+		os.WriteFile(outFile, hb, 0o644)
+		if rc := doReplay(prop, outFile, false); rc != 1 {
+			infra = append(infra, fmt.Sprintf("hang replay %s did not hang again (rc=%d)", outFile, rc))
+			continue
+		}
+		fmt.Printf("violation %s/hang: a call of the system under test never returned (self-deadlock outside the simulated clock); replaying the file hangs again and is cut by the watchdog\n", prop)
+		fmt.Printf("VIOLATION property=%s replay=%s\n", prop, outFile)
+		violations++
+		exit = 1
+	}
 	if len(infra) > 0 {
 		for _, s := range infra {
 			fmt.Fprintf(os.Stderr, "check: INFRASTRUCTURE: %s\n", s)
@@ -589,6 +627,9 @@ func explore(prop, tier string) int {
 	writeEvidence(prop, tier, seed, meta, agg, len(distinct), wall, violations, knownSeen, budget, workers)
 	return exit
 }
+
+// hangIsViolation: properties with a liveness clause (a stop / request must return).
+var hangIsViolation = map[string]bool{"C10": true, "C14": true, "C17": true}
 
 // crashJudge: placeholder for properties where a crashed worker is itself a violation (C16).
 var crashJudge = map[string]bool{}
